@@ -204,3 +204,13 @@ G11_sub = [
     r('Face3D.sub_rects_from_rect_dimensions', [PLANE, Q, Q, Q, Q, Q, Q], name='Face3D_sub_rects_from_rect_dimensions'),
 ]
 LAYERS.append(('G11_sub', G11_sub))
+
+TRI3 = TLst(P3)
+G12_mesh = [
+    r('Mesh2D._get_area', [TLst(P2)], name='Mesh2D__get_area'),
+    r('Mesh2D._tri_centroid', [TLst(P2)], name='Mesh2D__tri_centroid'),
+    r('Mesh3D._get_tri_area', [TLst(P3)], name='Mesh3D__get_tri_area'),
+    r('Mesh3D._tri_centroid', [TLst(P3)], name='Mesh3D__tri_centroid'),
+    r('Mesh3D._quad_centroid', [TLst(P3)], name='Mesh3D__quad_centroid'),
+]
+LAYERS.append(('G12_mesh', G12_mesh))
